@@ -351,14 +351,12 @@ Qed.
 Definition inv (top : str) (st : bst) : Prop :=
   contiguous 0 (b_spans st) (b_cur st) /\ Forall (good top) (b_spans st) /\ bnd top (b_cur st).
 
-Lemma append_span_ok top st k s e :
+Lemma push_range_ok top st k s e :
   inv top st -> b_cur st <= s -> s <= e -> bnd top s -> bnd top e ->
-  exists st', append_span top st k s e = Some st' /\ inv top st' /\ b_cur st' = e.
+  inv top (push_range st k s e) /\ b_cur (push_range st k s e) = e.
 Proof.
-  intros (Hc & Hg & Hb) H1 H2 Hs He. unfold append_span.
-  apply is_boundary_bnd in Hs as Hs', He as He'. rewrite Hs', He'. cbn [negb].
-  eexists. split; [reflexivity|]. split; [|reflexivity].
-  unfold inv. cbn [b_spans b_cur]. split; [|split; [|exact He]].
+  intros (Hc & Hg & Hb) H1 H2 Hs He. split; [|reflexivity].
+  unfold inv, push_range. cbn [b_spans b_cur]. split; [|split; [|exact He]].
   - destruct (b_cur st <? s) eqn:E1; destruct (s <? e) eqn:E2;
       try apply Nat.ltb_lt in E1; try apply Nat.ltb_ge in E1;
       try apply Nat.ltb_lt in E2; try apply Nat.ltb_ge in E2.
@@ -373,20 +371,89 @@ Proof.
       repeat (apply Forall_app; split); try exact Hg; repeat constructor; auto.
 Qed.
 
-Theorem run_calls_ok top cs : forall st,
-  inv top st -> wf_calls top (b_cur st) cs ->
-  exists st', run_calls top st cs = Some st' /\ inv top st' /\ b_cur st' = end_cur (b_cur st) cs.
+(** on ordered calls both forms of [append_span] do the same *)
+Lemma append_span_ok clamp top st k s e :
+  inv top st -> b_cur st <= s -> s <= e -> bnd top s -> bnd top e ->
+  exists st', append_span_gen clamp top st k s e = Some st' /\ inv top st' /\ b_cur st' = e.
 Proof.
-  induction cs as [|c cs IH]; intros st Hi Hw; cbn [run_calls end_cur].
+  intros Hi H1 H2 Hs He. unfold append_span_gen.
+  apply is_boundary_bnd in Hs as Hs', He as He'. rewrite Hs', He'. cbn [negb]. cbv zeta.
+  pose proof (bnd_le _ _ Hs). pose proof (bnd_le _ _ He).
+  assert (E1 : (if clamp then Nat.max (Nat.min s (blen top)) (b_cur st) else s) = s) by (destruct clamp; lia).
+  rewrite E1.
+  assert (E2 : (if clamp then Nat.max (Nat.min e (blen top)) s else e) = e) by (destruct clamp; lia).
+  rewrite E2.
+  eexists. split; [reflexivity|]. apply push_range_ok; assumption.
+Qed.
+
+Theorem run_calls_ok clamp top cs : forall st,
+  inv top st -> wf_calls top (b_cur st) cs ->
+  exists st', run_calls_gen clamp top st cs = Some st' /\ inv top st' /\ b_cur st' = end_cur (b_cur st) cs.
+Proof.
+  induction cs as [|c cs IH]; intros st Hi Hw; cbn [run_calls_gen end_cur].
   - exists st. auto.
-  - destruct c as [k s e | k]; cbn [step wf_calls] in *.
+  - destruct c as [k s e | k]; cbn [step_gen wf_calls] in *.
     + destruct Hw as (H1 & H2 & H3 & H4 & Hw).
-      destruct (append_span_ok top st k s e Hi H1 H2 H3 H4) as (st1 & -> & Hi1 & Hc1).
+      destruct (append_span_ok clamp top st k s e Hi H1 H2 H3 H4) as (st1 & -> & Hi1 & Hc1).
       rewrite <- Hc1 in Hw. destruct (IH st1 Hi1 Hw) as (st' & Hr & Hi' & Hc'). exists st'.
       split; [exact Hr | split; [exact Hi'|]]. rewrite Hc', Hc1. reflexivity.
     + apply (IH (mk_bst (b_spans st) (b_cur st) (Some k))); [|exact Hw].
       destruct Hi as (A & B & C). split; [exact A | split; [exact B | exact C]].
 Qed.
+
+(** the clamped form needs no order: aligned positions are enough *)
+Lemma bnd_max top a b : bnd top a -> bnd top b -> bnd top (Nat.max a b).
+Proof. intros Ha Hb. destruct (Nat.max_spec a b) as [[_ ->] | [_ ->]]; assumption. Qed.
+
+Lemma append_span_clamped_ok top st k s e :
+  inv top st -> b_cur st <= blen top -> bnd top s -> bnd top e ->
+  exists st', append_span_gen true top st k s e = Some st' /\ inv top st'
+    /\ b_cur st <= b_cur st' <= blen top /\ (blen top <= e -> b_cur st' = blen top).
+Proof.
+  intros Hi Hn Hs He. unfold append_span_gen.
+  apply is_boundary_bnd in Hs as Hs', He as He'. rewrite Hs', He'. cbn [negb]. cbv zeta.
+  pose proof (bnd_le _ _ Hs). pose proof (bnd_le _ _ He).
+  set (s' := Nat.max (Nat.min s (blen top)) (b_cur st)).
+  set (e' := Nat.max (Nat.min e (blen top)) s').
+  assert (Bs : bnd top s').
+  { unfold s'. apply bnd_max; [replace (Nat.min s (blen top)) with s by lia; exact Hs | apply Hi]. }
+  assert (Be : bnd top e').
+  { unfold e'. apply bnd_max; [replace (Nat.min e (blen top)) with e by lia; exact He | exact Bs]. }
+  destruct (push_range_ok top st k s' e' Hi) as [Hi' Hc']; try assumption; try (unfold e', s'; lia).
+  eexists. split; [reflexivity|]. split; [exact Hi'|]. rewrite Hc'. unfold e', s'. split; lia.
+Qed.
+
+Lemma calls_aligned_cons top c cs :
+  calls_aligned top (c :: cs) = true <-> call_aligned top c = true /\ calls_aligned top cs = true.
+Proof. unfold calls_aligned. cbn [forallb]. apply andb_true_iff. Qed.
+
+Theorem run_calls_clamped_ok top cs : forall st,
+  inv top st -> b_cur st <= blen top -> calls_aligned top cs = true ->
+  exists st', run_calls_gen true top st cs = Some st' /\ inv top st' /\ b_cur st <= b_cur st' <= blen top.
+Proof.
+  induction cs as [|c cs IH]; intros st Hi Hn Ha; cbn [run_calls_gen].
+  - exists st. split; [reflexivity | split; [exact Hi | lia]].
+  - apply calls_aligned_cons in Ha. destruct Ha as [Hc Ha].
+    destruct c as [k s e | k]; cbn [step_gen call_aligned] in *.
+    + apply andb_true_iff in Hc. destruct Hc as [Hs He]. apply is_boundary_bnd in Hs, He.
+      destruct (append_span_clamped_ok top st k s e Hi Hn Hs He) as (st1 & -> & Hi1 & Hb1 & _).
+      destruct (IH st1 Hi1 (proj2 Hb1) Ha) as (st' & Hr & Hi' & Hb'). exists st'.
+      split; [exact Hr | split; [exact Hi' | lia]].
+    + apply (IH (mk_bst (b_spans st) (b_cur st) (Some k))); [|exact Hn | exact Ha].
+      destruct Hi as (A & B & C). split; [exact A | split; [exact B | exact C]].
+Qed.
+
+Lemma run_calls_gen_app clamp top a : forall st b,
+  run_calls_gen clamp top st (a ++ b) =
+  match run_calls_gen clamp top st a with Some st' => run_calls_gen clamp top st' b | None => None end.
+Proof.
+  induction a as [|c a IH]; intros st b; cbn [app run_calls_gen]; [reflexivity|].
+  destruct (step_gen clamp top st c); [apply IH | reflexivity].
+Qed.
+
+Lemma calls_aligned_app top a b :
+  calls_aligned top (a ++ b) = true <-> calls_aligned top a = true /\ calls_aligned top b = true.
+Proof. unfold calls_aligned. rewrite forallb_app. apply andb_true_iff. Qed.
 
 Lemma good_valid top x : good top x -> send x <= blen top -> span_valid (utf8 top) x.
 Proof.
@@ -574,27 +641,71 @@ End Tree.
 Lemma inv_bst0 top : inv top bst0.
 Proof. split; [reflexivity | split; [constructor | apply bnd_0]]. Qed.
 
-Theorem spans_cover top cursor p : prog_ok top p = 0 ->
-  exists sp, highlight top cursor p = Some sp
+Theorem spans_cover_gen clamp top cursor p : prog_ok top p = 0 ->
+  exists sp, highlight_gen clamp top cursor p = Some sp
     /\ spec top sp
     /\ Forall (fun x => sstart x < send x) sp.
 Proof.
   intros Hok.
   destruct (tree_ok_calls top cursor) as (_ & _ & Hprog & _).
   destruct (Hprog p top 0 0 (emb_refl top) Hok (Nat.le_refl _)) as [Hw Hend].
-  destruct (run_calls_ok top _ bst0 (inv_bst0 top) Hw) as (st & Hr & Hi & Hc).
-  unfold highlight. rewrite Hr. exists (b_spans st). split; [reflexivity|]. split.
+  destruct (run_calls_ok clamp top _ bst0 (inv_bst0 top) Hw) as (st & Hr & Hi & Hc).
+  unfold highlight_gen. rewrite Hr. exists (b_spans st). split; [reflexivity|]. split.
   - apply inv_spec; [exact Hi|]. rewrite Hc. exact Hend.
   - destruct Hi as (_ & Hg & _). eapply Forall_impl; [|exact Hg]. intros x Hx. apply Hx.
 Qed.
+
+Theorem spans_cover top cursor p : prog_ok top p = 0 ->
+  exists sp, highlight top cursor p = Some sp
+    /\ spec top sp
+    /\ Forall (fun x => sstart x < send x) sp.
+Proof. apply spans_cover_gen. Qed.
 
 Theorem builder_no_panic top cursor p : prog_ok top p = 0 -> highlight top cursor p <> None.
 Proof. intros H. destruct (spans_cover top cursor p H) as (sp & -> & _). discriminate. Qed.
 
 (** the builder alone, for any sequence of calls that is ordered and aligned *)
-Theorem builder_cover top cs : wf_calls top 0 cs -> end_cur 0 cs = blen top ->
-  exists st, run_calls top bst0 cs = Some st /\ spec top (b_spans st).
+Theorem builder_cover clamp top cs : wf_calls top 0 cs -> end_cur 0 cs = blen top ->
+  exists st, run_calls_gen clamp top bst0 cs = Some st /\ spec top (b_spans st).
 Proof.
-  intros Hw He. destruct (run_calls_ok top cs bst0 (inv_bst0 top) Hw) as (st & Hr & Hi & Hc).
+  intros Hw He. destruct (run_calls_ok clamp top cs bst0 (inv_bst0 top) Hw) as (st & Hr & Hi & Hc).
   exists st. split; [exact Hr|]. apply inv_spec; [exact Hi|]. rewrite Hc. exact He.
 Qed.
+
+(** the clamped builder: any sequence of aligned calls whose last call asks for the end of the line *)
+Theorem builder_clamped_cover top cs k s e :
+  calls_aligned top (cs ++ [Append k s e]) = true -> blen top <= e ->
+  exists st, run_calls_gen true top bst0 (cs ++ [Append k s e]) = Some st /\ spec top (b_spans st).
+Proof.
+  intros Ha He. apply calls_aligned_app in Ha. destruct Ha as [Ha Hl].
+  destruct (run_calls_clamped_ok top cs bst0 (inv_bst0 top) (Nat.le_0_l _) Ha) as (st1 & Hr1 & Hi1 & Hb1).
+  apply calls_aligned_cons in Hl. destruct Hl as [Hl _]. cbn [call_aligned] in Hl.
+  apply andb_true_iff in Hl. destruct Hl as [Hs Hee]. apply is_boundary_bnd in Hs, Hee.
+  destruct (append_span_clamped_ok top st1 k s e Hi1 (proj2 Hb1) Hs Hee) as (st2 & Hr2 & Hi2 & _ & Hfin).
+  exists st2. rewrite run_calls_gen_app, Hr1. cbn [run_calls_gen step_gen]. rewrite Hr2.
+  split; [reflexivity|]. apply inv_spec; [exact Hi2 | apply Hfin, He].
+Qed.
+
+Lemma prog_calls_last cursor line off p :
+  exists cs k s, prog_calls cursor line off p = cs ++ [Append k s (off + blen line)].
+Proof.
+  destruct p as [|ts]; cbn [prog_calls].
+  - exists [], KDefault, off. reflexivity.
+  - eexists _, KDefault, _. reflexivity.
+Qed.
+
+Theorem spans_cover_clamped top cursor p :
+  calls_aligned top (prog_calls cursor top 0 p) = true ->
+  exists sp, highlight_gen true top cursor p = Some sp /\ spec top sp.
+Proof.
+  intros Ha. destruct (prog_calls_last cursor top 0 p) as (cs & k & s & E).
+  unfold highlight_gen. rewrite E in *.
+  destruct (builder_clamped_cover top cs k s _ Ha (Nat.le_refl _)) as (st & -> & Hs).
+  exists (b_spans st). split; [reflexivity | exact Hs].
+Qed.
+
+(** for the tree found in /repo when the translator reports the clamped form *)
+Theorem spans_cover_repo_clamped : gen.C19Variant.clamp_spans = true -> forall top cursor p,
+  calls_aligned top (prog_calls cursor top 0 p) = true ->
+  exists sp, highlight top cursor p = Some sp /\ spec top sp.
+Proof. intros E top cursor p. unfold highlight. rewrite E. apply spans_cover_clamped. Qed.
